@@ -1,7 +1,7 @@
 """C07 -- bottleneck and Wasserstein obey the metric and invariance laws at any size."""
 from fractions import Fraction
 from .. import tlc, laws
-from ..common import EXACT_EMBS, DEC_EMBS
+from ..common import EXACT_EMBS, DEC_EMBS, EXTREME_EMBS
 
 RULE = ("M: the laws are theorems of the definitions -- Bottleneck.tla / Wasserstein.tla already model-check value = definition, and "
         "LawsOnDefinitions (below) checks symmetry, triangle, diagonal-point and translation invariance on BottleneckDef for all triples on the "
@@ -30,7 +30,7 @@ def run(ctx):
         specs.append(dict(session=laws.make_session(rng, lo, hi, rng.choice([10, 30, 60]), neg=(i % 3 == 1)), fn="wass", emb=embs[(i + 3) % len(embs)], aux=["BT"] if (quick and i < 2) or (not quick and i < 8) else [],
                           zerotol=Fraction(1, 10 ** 9)))
     # small sessions too: ties and tiny diagrams
-    embs2 = embs + EXACT_EMBS[4:6]      # incl. scales 2^-50 and 2^30
+    embs2 = embs + EXACT_EMBS[4:6] + EXTREME_EMBS     # incl. scales 2^-50, 2^30, 2^60 and 2^-100
     for i in range(36 if quick else 300):
         specs.append(dict(session=laws.make_session(rng, 0, 6, rng.choice([3, 6]), neg=(i % 2 == 1), far=(i % 3 == 0)), fn=("bott", "wass")[(i // 3) % 2], emb=embs2[i % len(embs2)], aux=[], zerotol=Fraction(1, 10 ** 9)))
     for sp in specs:
